@@ -11,6 +11,7 @@ pub(super) const U_EXP: u8 = 4;
 pub(super) const U_RECIP: u8 = 5;
 pub(super) const U_RELU: u8 = 6;
 pub(super) const U_SIGMOID: u8 = 7;
+pub(super) const U_EXP_BIG: u8 = 8; // exp on large arguments (40, 45, 80): beyond any single-precision shortcut threshold
 
 pub(super) fn u_apply(op: u8, p: Float, x: &Array) -> Array {
     match op {
@@ -18,7 +19,7 @@ pub(super) fn u_apply(op: u8, p: Float, x: &Array) -> Array {
         U_SCALE => x * p,
         U_POWF => x.powf(p),
         U_LN => x.ln(),
-        U_EXP => x.exp(),
+        U_EXP | U_EXP_BIG => x.exp(),
         U_RECIP => x.reciprocal(),
         U_RELU => x.relu(),
         _ => x.sigmoid(),
@@ -31,7 +32,7 @@ pub(super) fn u_f(op: u8, p: Float, x: Float) -> Float {
         U_SCALE => x * p,
         U_POWF => x.powf(p),
         U_LN => x.ln(),
-        U_EXP => x.exp(),
+        U_EXP | U_EXP_BIG => x.exp(),
         U_RECIP => 1.0 / x,
         U_RELU => if x > 0.0 { x } else { 0.0 },
         _ => 1.0 / (1.0 + (-x).exp()),
@@ -44,7 +45,7 @@ pub(super) fn u_df(op: u8, p: Float, x: Float) -> Float {
         U_SCALE => p,
         U_POWF => p * x.powf(p - 1.0),
         U_LN => 1.0 / x,
-        U_EXP => x.exp(),
+        U_EXP | U_EXP_BIG => x.exp(),
         U_RECIP => -1.0 / (x * x),
         U_RELU => if x > 0.0 { 1.0 } else { 0.0 },
         _ => {
@@ -56,10 +57,17 @@ pub(super) fn u_df(op: u8, p: Float, x: Float) -> Float {
 pub(super) fn u_domain(op: u8, p: Float) -> fn() -> Float {
     match op {
         U_LN => sym_ppow2,
+        U_EXP_BIG => sym_big,
         U_RECIP => sym_pow2,
         U_POWF => if p < 1.0 { sym_pow2 } else { sym_val },
         _ => sym_val,
     }
+}
+/// 40, 45, 80
+pub(super) fn sym_big() -> Float {
+    let v = sym_i64();
+    vassume(v == 40 || v == 45 || v == 80);
+    v as Float
 }
 /// +1, +2, +4
 pub(super) fn sym_ppow2() -> Float {
